@@ -885,7 +885,12 @@ def _parse_phase_numpydoc_and_google(
             "returns": (
                 OrderedDict(
                     (
-                        _interpolate_defaults_and_force_future_default(
+                        # (a default is forced on the parameters that follow a defaulted one; a return entry is no parameter)
+                        partial(
+                            interpolate_defaults,
+                            emit_default_doc=emit_default_doc,
+                            default_search_announce=default_search_announce,
+                        )(
                             _set_name_and_type(
                                 (
                                     "return_type",
